@@ -39,6 +39,7 @@ def run(ctx):
         configs = [
             {"cfg": "Traceparent_quick.cfg", "workers": 4, "actions": ACTIONS + TASKS + LAZY},
             {"cfg": "Traceparent_quick2.cfg", "workers": 4, "actions": ACTIONS + ["Header"]},
+            {"cfg": "Traceparent_quick3.cfg", "workers": 4, "actions": ACTIONS},
         ]
     else:
         configs = [
@@ -48,6 +49,7 @@ def run(ctx):
              "actions": ACTIONS + TASKS + LAZY + ["Header"]},
             {"cfg": "Traceparent_thorough_r1.cfg", "workers": 6, "actions": ACTIONS + TASKS + LAZY + ["Header"]},
             {"cfg": "Traceparent_thorough_r2.cfg", "workers": 6, "actions": ACTIONS + TASKS + LAZY + ["Header"]},
+            {"cfg": "Traceparent_thorough_r3.cfg", "workers": 6, "actions": ACTIONS + ["Header"]},
             {"cfg": "Traceparent_thorough_sim.cfg", "workers": 4, "simulate": (20000, 18)},
         ]
         if ctx.replay_case() is None:
